@@ -134,13 +134,16 @@ func wide16(op int, a, b uint16, f uint8) (uint16, uint8) {
 
 type c03Rig struct {
 	m    flatMem
-	c    z80.CPU
+	cpus [2]z80.CPU // ping-pong: each point runs on a struct copy of the CPU value that ran the previous one
+	cur  int
+	c    *z80.CPU
 	base z80.States
 }
 
 func newC03Rig(seed uint64) *c03Rig {
 	r := &c03Rig{}
-	r.c.Memory = &r.m
+	r.cpus[0].Memory, r.cpus[1].Memory = &r.m, &r.m
+	r.c = &r.cpus[0]
 	h := func(i int) uint16 { return uint16(stats.Hash(seed, 0xc03, uint64(i))) }
 	st := &r.base
 	st.AF.Hi = uint8(h(0))
@@ -167,7 +170,18 @@ func (r *c03Rig) load(e *enc16) {
 
 // point runs one (a, b, f) point of an encoding; ok=false on mismatch.
 func (r *c03Rig) point(e *enc16, a, b uint16, f uint8) bool {
-	c := &r.c
+	// ping-pong: run on a struct copy of the CPU value that ran the previous point, and scribble over the
+	// previous one, so that anything cached inside a CPU that refers back to the struct it was copied
+	// from is exposed
+	prev := &r.cpus[r.cur]
+	r.cur ^= 1
+	r.cpus[r.cur] = *prev // the copy lives at another address than the value it was copied from
+	prev.BC.SetU16(^b)
+	prev.DE.SetU16(^b)
+	prev.HL.SetU16(^a)
+	prev.AF.Lo = ^f
+	c := &r.cpus[r.cur]
+	r.c = c
 	c.States = r.base
 	c.AF.Lo = f
 	set16(c, e.src, b)
@@ -229,7 +243,7 @@ func c03Describe(r *c03Rig, e *enc16, a, b uint16, f uint8) string {
 	default:
 		res, nf = wide16(e.op, a, b, f)
 	}
-	g := eng16(&r.c, e.dst)
+	g := eng16(r.c, e.dst)
 	return fmt.Sprintf("%s a=%04x b=%04x f=%02x: got %s=%04x F=%02x PC=%04x, want %04x F=%02x (and nothing else changed)",
 		e.name, a, b, f, r16Names[e.dst], g, r.c.AF.Lo, r.c.PC, res, nf)
 }
@@ -262,6 +276,8 @@ func init() {
 				if l[i].name == p.Enc {
 					r := newC03Rig(p.Seed)
 					r.load(&l[i])
+					// the enumeration runs every point on a copy of the CPU value that ran the previous one
+					r.point(&l[i], ^uint16(p.A), ^uint16(p.B), ^uint8(p.F))
 					if !r.point(&l[i], uint16(p.A), uint16(p.B), uint8(p.F)) {
 						return c03Describe(r, &l[i], uint16(p.A), uint16(p.B), uint8(p.F)), nil
 					}
